@@ -93,10 +93,25 @@ theorem close_text_at (s : St) (m mQ pgnoQ pageQ : Nat) (hlen : m < s.raw.length
 
 /-! ## pages stored earlier stay fetchable -/
 
-/-- `_vbi_cache_put_page` of a page with another page number does not change what a look-up of `pgno` finds -/
-theorem cachePut_find_other (c : List Page) (pt : Nat) (p : Page) (pgno key mask : Nat) (hne : p.pgno ≠ pgno) :
-    ∀ c', cachePut c pt p = some c' → c'.find? (keyMatch pgno key mask) = c.find? (keyMatch pgno key mask) := by
-  unfold cachePut
+theorem find?_filter_of_false (f g : Page → Bool) (hg : ∀ x, g x = false → f x = false) (l : List Page) :
+    (l.filter g).find? f = l.find? f := by
+  induction l with
+  | nil => rfl
+  | cons y ys ih =>
+    by_cases hy : g y = true
+    · rw [List.filter_cons_of_pos hy]
+      simp only [List.find?_cons]
+      cases f y <;> simp [ih]
+    · have hy' : g y = false := by simpa using hy
+      rw [List.filter_cons_of_neg hy, List.find?_cons, hg y hy']
+      exact ih
+
+/-- `_vbi_cache_put_page` (either source shape, `fix`) of a page with another page number does not change what a
+    look-up of `pgno` finds: the version replaced AND - repaired shape, single-version key - the other versions removed
+    all have the page number stored -/
+theorem cachePutF_find_other (fix : Bool) (c : List Page) (pt : Nat) (p : Page) (pgno key mask : Nat) (hne : p.pgno ≠ pgno) :
+    ∀ c', cachePutF fix c pt p = some c' → c'.find? (keyMatch pgno key mask) = c.find? (keyMatch pgno key mask) := by
+  unfold cachePutF
   split
   · intro c' h; cases h
   · generalize putKey pt p.pgno p.subno = k
@@ -131,6 +146,63 @@ theorem cachePut_find_other (c : List Page) (pt : Nat) (p : Page) (pgno key mask
           have : (o.pgno == pgno) = false := by rw [this.1]; simpa using hne
           rw [this]; rfl
         rw [List.erase_cons_head]
-        exact find?_erase_of_false _ o hold c
+        split
+        · rw [find?_filter_of_false]
+          · exact find?_erase_of_false _ o hold c
+          · intro x hx
+            unfold keyMatch
+            have hxp : x.pgno = p.pgno := by simpa using hx
+            have : (x.pgno == pgno) = false := by rw [hxp]; simpa using hne
+            rw [this]; rfl
+        · exact find?_erase_of_false _ o hold c
+
+theorem cachePut_find_other (c : List Page) (pt : Nat) (p : Page) (pgno key mask : Nat) (hne : p.pgno ≠ pgno) :
+    ∀ c', cachePut c pt p = some c' → c'.find? (keyMatch pgno key mask) = c.find? (keyMatch pgno key mask) :=
+  cachePutF_find_other _ c pt p pgno key mask hne
+
+/-! ## repaired shape: a store under a single-version key leaves ONE version of the page number -/
+
+theorem filter_erase_false (g : Page → Bool) (x : Page) (hx : g x = false) (l : List Page) :
+    (l.erase x).filter g = l.filter g := by
+  induction l with
+  | nil => rfl
+  | cons y ys ih =>
+    by_cases e : y = x
+    · subst e
+      rw [List.erase_cons_head, List.filter_cons_of_neg (by simp [hx])]
+    · rw [List.erase_cons_tail (by simpa using e)]
+      simp only [List.filter_cons, ih]
+
+/-- `_vbi_cache_put_page` with fixes/C10-put-replaces-all-versions.diff, key class "one version" (`subno_mask = 0`): the
+    new chain is the page stored followed by the pages of all OTHER page numbers, in their old order - whether or not a
+    version was cached, however many there were -/
+theorem cachePutF_single (c : List Page) (pt : Nat) (p : Page) (key : Nat) (hk : putKey pt p.pgno p.subno = (key, 0)) :
+    ∀ c', cachePutF true c pt p = some c' →
+      c' = ({ p.truncate with subno := key } : Page) :: c.filter (fun q => q.pgno != p.pgno) := by
+  unfold cachePutF
+  split
+  · intro c' h; cases h
+  · rw [hk]
+    intro c' h
+    simp only [Option.some.injEq] at h
+    subst h
+    congr 1
+    rw [cacheFind_eq]
+    cases hfo : c.find? (keyMatch p.pgno (key &&& 0) 0) with
+    | none =>
+      simp only []
+      symm
+      apply List.filter_eq_self.2
+      intro q hq
+      have := List.find?_eq_none.1 hfo q hq
+      unfold keyMatch at this
+      simp only [Nat.and_zero, beq_self_eq_true, Bool.and_true, beq_iff_eq] at this
+      simpa using this
+    | some o =>
+      simp only [Bool.true_and, beq_self_eq_true, if_true, List.erase_cons_head]
+      have ho := List.find?_some hfo
+      unfold keyMatch at ho
+      simp only [Bool.and_eq_true, beq_iff_eq] at ho
+      exact filter_erase_false _ o (by simp [ho.1]) c
 
 end Zvbi.Ttx
